@@ -210,6 +210,9 @@ func runC02(c *config) {
 	o := c.out
 	if c.replay != "" {
 		rp := readReplay(c.replay)
+		if c02OrderReplay(c, rp.Detail) {
+			return
+		}
 		src, _ := rp.Detail["src"].(string)
 		c02One(c, rtInput{name: "replay", src: src, kind: "replay"}, true)
 		return
@@ -217,6 +220,7 @@ func runC02(c *config) {
 	for i, in := range rtInputs(c, "c02", 60*c.scale) {
 		c02One(c, in, i < 1)
 	}
+	c02Order(c) // names that form adversarial order families, eight fresh parses each (c02order.go)
 	_ = o
 }
 
@@ -428,6 +432,9 @@ func runC01(c *config) {
 	o := c.out
 	if c.replay != "" {
 		rp := readReplay(c.replay)
+		if c01FlagsReplay(c, rp.Detail) {
+			return
+		}
 		src, _ := rp.Detail["src"].(string)
 		c01One(c, rtInput{name: "replay", src: src, kind: "replay"}, true)
 		return
@@ -435,6 +442,7 @@ func runC01(c *config) {
 	for i, in := range rtInputs(c, "c01", 60*c.scale) {
 		c01One(c, in, i < 1)
 	}
+	c01Flags(c) // every subset of the optional keywords of one production (c01flags.go)
 	// lines with many optional parts, written in the one order LLVM's grammar allows (and its printer uses): each
 	// must come out as it went in (the token comparison above is blind to order)
 	for _, l := range []string{
@@ -722,128 +730,139 @@ func runC03(c *config) {
 	// 1. every instruction constructor on well-typed operands (the generator of C06), inside a module built
 	//    with the builder API, with named and unnamed values
 	for i := 0; i < 1500*c.scale; i++ {
-		m := ir.NewModule()
-		// type definitions in the order the parser would list them (the printer keeps a constructed
-		// module's own order: see KF-36 under C20)
-		var tnames []string
-		for n := range u.named {
-			tnames = append(tnames, n)
-		}
-		verifhook.NatsortStrings(tnames)
-		for _, n := range tnames {
-			m.TypeDefs = append(m.TypeDefs, u.named[n])
-		}
-		glob := m.NewGlobalDef("gv", constant.NewInt(types.I32, int64(i)))
-		if r.chance(30) {
-			glob.SetName("")
-		}
-		k := 1 + r.intn(3)
 		var ops []string
-		f := m.NewFunc("f", types.Void)
-		b := f.NewBlock("")
-		if r.coin() {
-			b.SetName("entry")
-		}
-		bad := ""
-		for j := 0; j < k; j++ {
-			cs := c06Gen(r, g, u)
-			var params []*ir.Param
-			for pi, t := range cs.params {
-				name := fmt.Sprintf("p%d_%d", j, pi)
-				if r.chance(30) {
-					name = ""
+		c03Guarded(c, func() string { return "instruction constructors on well-typed operands: " + strings.Join(ops, ",") }, "", func() {
+			m := ir.NewModule()
+			// type definitions in the order the parser would list them (the printer keeps a constructed
+			// module's own order: see KF-36 under C20)
+			var tnames []string
+			for n := range u.named {
+				tnames = append(tnames, n)
+			}
+			verifhook.NatsortStrings(tnames)
+			for _, n := range tnames {
+				m.TypeDefs = append(m.TypeDefs, u.named[n])
+			}
+			glob := m.NewGlobalDef("gv", constant.NewInt(types.I32, int64(i)))
+			if r.chance(30) {
+				glob.SetName("")
+			}
+			k := 1 + r.intn(3)
+			f := m.NewFunc("f", types.Void)
+			b := f.NewBlock("")
+			if r.coin() {
+				b.SetName("entry")
+			}
+			bad := ""
+			for j := 0; j < k; j++ {
+				cs := c06Gen(r, g, u)
+				var params []*ir.Param
+				for pi, t := range cs.params {
+					name := fmt.Sprintf("p%d_%d", j, pi)
+					if r.chance(30) {
+						name = ""
+					}
+					p := ir.NewParam(name, t)
+					params = append(params, p)
+					f.Params = append(f.Params, p)
+					f.Sig.Params = append(f.Sig.Params, t)
 				}
-				p := ir.NewParam(name, t)
-				params = append(params, p)
-				f.Params = append(f.Params, p)
-				f.Sig.Params = append(f.Sig.Params, t)
+				var v value.Value
+				oc, msg := guard(func() error { v = cs.build(b, params); return nil })
+				if oc != ocOk {
+					bad = "a well-typed construction is rejected by the constructor: " + cs.op + " " + msg
+					break
+				}
+				ops = append(ops, cs.op)
+				if cs.text != nil {
+					c06CheckText(c, cs, v, params, false)
+				}
+				if n, ok := v.(interface{ SetName(string) }); ok && r.chance(50) && !types.Equal(v.Type(), types.Void) {
+					n.SetName(fmt.Sprintf("r%d", j))
+				}
+				o.Stat("ctor." + cs.op)
+				_ = cs.cls
 			}
-			var v value.Value
-			oc, msg := guard(func() error { v = cs.build(b, params); return nil })
-			if oc != ocOk {
-				bad = "a well-typed construction is rejected by the constructor: " + cs.op + " " + msg
-				break
+			f.Typ = nil
+			_ = f.Type()
+			b.NewRet(nil)
+			o.Nontrivial(strings.Join(ops, ",") + fmt.Sprint(i))
+			det := map[string]interface{}{"ops": ops}
+			if bad != "" {
+				o.Fail("construct_print_parse", "", bad, det)
+				return
 			}
-			ops = append(ops, cs.op)
-			if cs.text != nil {
-				c06CheckText(c, cs, v, params, false)
-			}
-			if n, ok := v.(interface{ SetName(string) }); ok && r.chance(50) && !types.Equal(v.Type(), types.Void) {
-				n.SetName(fmt.Sprintf("r%d", j))
-			}
-			o.Stat("ctor." + cs.op)
-			_ = cs.cls
-		}
-		f.Typ = nil
-		_ = f.Type()
-		b.NewRet(nil)
-		o.Nontrivial(strings.Join(ops, ",") + fmt.Sprint(i))
-		det := map[string]interface{}{"ops": ops}
-		if bad != "" {
-			o.Fail("construct_print_parse", "", bad, det)
-			continue
-		}
-		c03Check(c, m, det, "", i < 1)
+			c03Check(c, m, det, "", i < 1)
+		})
 	}
 	// 2. module-level construction: globals, aliases, functions with control flow, metadata, the corner
 	//    cases recorded as findings
 	for i := 0; i < 60*c.scale; i++ {
-		c03Check(c, c03Module(r, i), map[string]interface{}{"program": "module-level builder"}, "", false)
+		c03Guarded(c, func() string { return "module-level builder" }, "", func() {
+			c03Check(c, c03Module(r, i), map[string]interface{}{"program": "module-level builder"}, "", false)
+		})
 	}
-	decl := ir.NewModule()
-	decl.NewGlobal("g", types.I32)
-	c03Check(c, decl, map[string]interface{}{"program": "m.NewGlobal(\"g\", i32)"}, "global_decl_no_linkage", false)
+	c03Guarded(c, func() string { return "m.NewGlobal(\"g\", i32)" }, "", func() {
+		decl := ir.NewModule()
+		decl.NewGlobal("g", types.I32)
+		c03Check(c, decl, map[string]interface{}{"program": "m.NewGlobal(\"g\", i32)"}, "global_decl_no_linkage", false)
+	})
 	// exception-handling terminators and pads through their constructors, the optional unwind target absent
 	// (nil: "unwind to caller") and present
 	for variant := 0; variant < 4; variant++ {
-		m := ir.NewModule()
-		pers := m.NewFunc("pers", types.I32)
-		pers.Sig.Variadic = true
-		callee := m.NewFunc("callee", types.Void)
-		f := m.NewFunc("f", types.Void)
-		f.Personality = pers
-		entry, cs, h1, cl, cl2, done := f.NewBlock("entry"), f.NewBlock("cs"), f.NewBlock("h1"), f.NewBlock("cl"), f.NewBlock("cl2"), f.NewBlock("done")
-		// (the invokee is variadic in two of the variants: LLVM then wants the full function type written out)
-		wantInvoke := "invoke void @callee()"
-		if variant >= 2 {
-			vc := m.NewFunc("vcallee", types.Void, ir.NewParam("", types.I32))
-			vc.Sig.Variadic = true
-			vc.Typ = nil
-			_ = vc.Type()
-			entry.NewInvoke(vc, []value.Value{constant.NewInt(types.I32, 1), constant.NewInt(types.I64, 2)}, done, cs)
-			wantInvoke = "invoke void (i32, ...) @vcallee(i32 1, i64 2)"
-		} else {
-			entry.NewInvoke(callee, nil, done, cs)
-		}
-		var unwind, unwind2 *ir.Block
-		if variant&1 != 0 {
-			unwind = cl
-		}
-		if variant&2 != 0 {
-			unwind2 = cl2
-		}
-		sw := cs.NewCatchSwitch(constant.None, []*ir.Block{h1}, unwind)
-		sw.SetName("sw")
-		cp := h1.NewCatchPad(sw, constant.NewInt(types.I32, 7))
-		cp.SetName("cp")
-		h1.NewCatchRet(cp, done)
-		pad := cl.NewCleanupPad(constant.None)
-		pad.SetName("pad")
-		cl.NewCleanupRet(pad, unwind2)
-		pad2 := cl2.NewCleanupPad(constant.None, constant.NewInt(types.I32, 1))
-		pad2.SetName("pad2")
-		cl2.NewCleanupRet(pad2, nil)
-		done.NewRet(nil)
-		if text, oc, _ := printGuard(m); oc == ocOk && !strings.Contains(text, wantInvoke) {
-			o.Fail("constructed_text", "", "the printed invoke does not spell what was constructed: want "+wantInvoke, map[string]interface{}{"printed": text})
-		} else if oc == ocOk {
-			o.Pass("constructed_text")
-		}
-		c03Check(c, m, map[string]interface{}{"program": fmt.Sprintf("invoke / catchswitch / catchpad / catchret / cleanuppad / cleanupret through the constructors, variant %d (bit 0: catchswitch unwinds to a block, bit 1: cleanupret unwinds to a block and the invokee is variadic)", variant)}, "", false)
+		ehProgram := fmt.Sprintf("invoke / catchswitch / catchpad / catchret / cleanuppad / cleanupret through the constructors, variant %d (bit 0: catchswitch unwinds to a block, bit 1: cleanupret unwinds to a block and the invokee is variadic)", variant)
+		c03Guarded(c, func() string { return ehProgram }, "", func() {
+			m := ir.NewModule()
+			pers := m.NewFunc("pers", types.I32)
+			pers.Sig.Variadic = true
+			callee := m.NewFunc("callee", types.Void)
+			f := m.NewFunc("f", types.Void)
+			f.Personality = pers
+			entry, cs, h1, cl, cl2, done := f.NewBlock("entry"), f.NewBlock("cs"), f.NewBlock("h1"), f.NewBlock("cl"), f.NewBlock("cl2"), f.NewBlock("done")
+			// (the invokee is variadic in two of the variants: LLVM then wants the full function type written out)
+			wantInvoke := "invoke void @callee()"
+			if variant >= 2 {
+				vc := m.NewFunc("vcallee", types.Void, ir.NewParam("", types.I32))
+				vc.Sig.Variadic = true
+				vc.Typ = nil
+				_ = vc.Type()
+				entry.NewInvoke(vc, []value.Value{constant.NewInt(types.I32, 1), constant.NewInt(types.I64, 2)}, done, cs)
+				wantInvoke = "invoke void (i32, ...) @vcallee(i32 1, i64 2)"
+			} else {
+				entry.NewInvoke(callee, nil, done, cs)
+			}
+			var unwind, unwind2 *ir.Block
+			if variant&1 != 0 {
+				unwind = cl
+			}
+			if variant&2 != 0 {
+				unwind2 = cl2
+			}
+			sw := cs.NewCatchSwitch(constant.None, []*ir.Block{h1}, unwind)
+			sw.SetName("sw")
+			cp := h1.NewCatchPad(sw, constant.NewInt(types.I32, 7))
+			cp.SetName("cp")
+			h1.NewCatchRet(cp, done)
+			pad := cl.NewCleanupPad(constant.None)
+			pad.SetName("pad")
+			cl.NewCleanupRet(pad, unwind2)
+			pad2 := cl2.NewCleanupPad(constant.None, constant.NewInt(types.I32, 1))
+			pad2.SetName("pad2")
+			cl2.NewCleanupRet(pad2, nil)
+			done.NewRet(nil)
+			if text, oc, _ := printGuard(m); oc == ocOk && !strings.Contains(text, wantInvoke) {
+				o.Fail("constructed_text", "", "the printed invoke does not spell what was constructed: want "+wantInvoke, map[string]interface{}{"printed": text})
+			} else if oc == ocOk {
+				o.Pass("constructed_text")
+			}
+			c03Check(c, m, map[string]interface{}{"program": ehProgram}, "", false)
+		})
 	}
 	// a reference to an unnamed block of a function that is printed after the reference (KF-39): a blockaddress in
 	// a global initialiser and in an earlier function
-	{
+	c03Guarded(c, func() string {
+		return "blockaddress of an unnamed block of a later function, in a global and in an earlier function"
+	}, "", func() {
 		m := ir.NewModule()
 		first := m.NewFunc("first", types.NewPointer(types.I8))
 		f := m.NewFunc("f", types.Void, ir.NewParam("", types.I32))
@@ -859,10 +878,10 @@ func runC03(c *config) {
 			o.Pass("constructed_text")
 		}
 		c03Check(c, m, map[string]interface{}{"program": "blockaddress of an unnamed block of a later function, in a global and in an earlier function"}, "", false)
-	}
+	})
 	// an indirect function: its type is the function pointer its resolver returns (LLVM: `@i = ifunc T, T* ()* @res`),
 	// and a call through it has T's result type (KF-45, repaired)
-	{
+	c03Guarded(c, func() string { return "an ifunc, called" }, "", func() {
 		m := ir.NewModule()
 		ft := types.NewFunc(types.I32, types.I32)
 		res := m.NewFunc("res", types.NewPointer(ft))
@@ -879,30 +898,47 @@ func runC03(c *config) {
 			o.Pass("constructed_text")
 		}
 		c03Check(c, m, map[string]interface{}{"program": "an ifunc, called"}, "", false)
-	}
+	})
 	// address spaces can only be given by assigning the field after the constructor: the typed uses must follow
 	for variant := 0; variant < 3; variant++ {
-		m := ir.NewModule()
-		g := m.NewGlobalDef("g", constant.NewInt(types.I32, 1))
-		callee := m.NewFunc("callee", types.Void)
-		f := m.NewFunc("f", types.I32)
-		b := f.NewBlock("entry")
-		a := b.NewAlloca(types.I32)
-		switch variant {
-		case 0:
-			g.AddrSpace = 2
-		case 1:
-			a.AddrSpace = 1
-		default:
-			callee.AddrSpace = 3
-		}
-		b.NewStore(constant.NewInt(types.I32, 4), a)
-		x := b.NewLoad(types.I32, g)
-		y := b.NewLoad(types.I32, a)
-		call := b.NewCall(callee)
-		call.AddrSpace = callee.AddrSpace // LLVM wants the address space of the callee spelled on the call
-		b.NewRet(b.NewAdd(x, y))
-		c03Check(c, m, map[string]interface{}{"program": fmt.Sprintf("address space assigned after the constructor, variant %d (0 global, 1 alloca, 2 function)", variant)}, "", false)
+		asProgram := fmt.Sprintf("address space assigned after the constructor, variant %d (0 global, 1 alloca, 2 function): store to the alloca, loads from the global and the alloca, a call", variant)
+		c03Guarded(c, func() string { return asProgram }, "", func() {
+			m := ir.NewModule()
+			g := m.NewGlobalDef("g", constant.NewInt(types.I32, 1))
+			callee := m.NewFunc("callee", types.Void)
+			f := m.NewFunc("f", types.I32)
+			b := f.NewBlock("entry")
+			a := b.NewAlloca(types.I32)
+			switch variant {
+			case 0:
+				g.AddrSpace = 2
+			case 1:
+				a.AddrSpace = 1
+			default:
+				callee.AddrSpace = 3
+			}
+			b.NewStore(constant.NewInt(types.I32, 4), a)
+			x := b.NewLoad(types.I32, g)
+			y := b.NewLoad(types.I32, a)
+			call := b.NewCall(callee)
+			call.AddrSpace = callee.AddrSpace // LLVM wants the address space of the callee spelled on the call
+			b.NewRet(b.NewAdd(x, y))
+			c03Check(c, m, map[string]interface{}{"program": asProgram}, "", false)
+		})
+	}
+	// address spaces throughout: memory accesses, address computations, atomics and calls through pointers in
+	// non-default address spaces (c03as.go)
+	c03AddrSpaces(c, newRng(c.seed, "c03as"))
+}
+
+// c03Guarded runs one construction program under guard: a constructor that panics on a well-typed recipe is a
+// failure of the property (a well-typed construction is never rejected by a constructor's own type check), reported
+// with the recipe as the failing input.
+func c03Guarded(c *config, recipe func() string, class string, program func()) {
+	oc, msg := guard(func() error { program(); return nil })
+	if oc != ocOk {
+		c.out.Stat("programs")
+		c.out.Fail("construct_print_parse", class, "a well-typed construction is rejected by the constructor: "+msg, map[string]interface{}{"program": recipe(), "msg": msg})
 	}
 }
 
